@@ -6,7 +6,7 @@ Require Import Yui.Model.KhCube Yui.Model.KhSigns Yui.Model.KhHomology Yui.Model
 Extraction Language OCaml.
 Extraction "../ocaml/gen/c19_model.ml"
   Z.add N.add Nat.add
-  KhSigns.signed_nums KhSigns.crossing_signs
+  KhSigns.signed_nums KhSigns.kh_crossing_signs
   KhCube.mirror KhCube.first_edge
   KhHomology.build_cube KhHomology.kh_groups
   KhI.build_icube KhI.khi_ok KhI.khi_dims KhI.khi_dims_bigraded.
